@@ -57,6 +57,7 @@ type restNodeOpts struct {
 	DeltaSync      bool   `json:"delta_sync,omitempty"`
 	FeedWorkers    int    `json:"feed_workers,omitempty"`
 	NumVB          int    `json:"num_vb,omitempty"`
+	PendingMaxMs   int    `json:"pending_max_ms,omitempty"` // how long the changes cache waits for a missing sequence
 }
 
 type restNode struct {
@@ -155,6 +156,12 @@ func (w *restWorld) startNode(name string, o restNodeOpts, prev *restNode) (*res
 		dbc.SGReplicateEnabled = base.Ptr(o.SGReplicate)
 		if o.RevCacheSize >= 0 {
 			dbc.CacheConfig = &CacheConfig{RevCacheConfig: &RevCacheConfig{MaxItemCount: base.Ptr(uint32(o.RevCacheSize))}}
+		}
+		if o.PendingMaxMs > 0 {
+			if dbc.CacheConfig == nil {
+				dbc.CacheConfig = &CacheConfig{}
+			}
+			dbc.CacheConfig.ChannelCacheConfig = &ChannelCacheConfig{MaxWaitPending: base.Ptr(uint32(o.PendingMaxMs))}
 		}
 		if o.DeltaSync {
 			dbc.DeltaSync = &DeltaSyncConfig{Enabled: base.Ptr(true)}
